@@ -14,6 +14,7 @@ package s3db
 
 //@ spec absKey(v *v1proto.SQLiteValue) AbsKey = AbsKey{Type: int(v.Type), Int: v.Int, Real: v.Real, Text: v.Text, Blob: bytes(v.Blob)}
 
+//@ ufunc ordU(a, b) int
 //@ spec keyTyped(t int) bool = t == 1 || t == 2 || t == 3 || t == 4
 //@ spec classRank(t int) int = ite(t == 1 || t == 2, 0, ite(t == 3, 1, 2))
 //@ spec cmpInt(a int, b int) int = ite(a < b, -1, ite(a > b, 1, 0))
@@ -73,6 +74,11 @@ package s3db
 //@   model k.Type, k.Int, k.Real, k.Text, bytes(k.Blob), o2.(*Key).Type, o2.(*Key).Int, o2.(*Key).Real, o2.(*Key).Text, bytes(o2.(*Key).Blob)
 //@   ensures nilarg: imp(o2 == nil, result == 1)
 //@   ensures cmp: imp(o2 != nil, result == sqliteCmpAbs(absKey(k.SQLiteValue), absKey(o2.(*Key).SQLiteValue)))
+// Keys are immutable once built (no function under contract writes a key's
+// fields: frame obligations), so the comparison is a function of the two key
+// objects: ordU names it for contracts that only need "the tree's order"
+// (scans), without unfolding the comparison each time.
+//@   ensures-assumed opaque: imp(o2 != nil, result == ordU(k, o2.(*Key)))
 //@   modifies nothing
 
 // ---------------------------------------------------------------------------
@@ -622,8 +628,8 @@ package s3db
 // strictly increasing in key order (/verif/trusted/mast.contracts).
 
 // the key order the tree uses: the *Key Order method = the SQLite comparison
-//@ spec keyOrder(a interface{}, b interface{}) int = sqliteCmpAbs(absKey(a.(*Key).SQLiteValue), absKey(b.(*Key).SQLiteValue))
-//@ spec kcmp(a *Key, b *Key) int = sqliteCmpAbs(absKey(a.SQLiteValue), absKey(b.SQLiteValue))
+//@ spec keyOrder(a interface{}, b interface{}) int = ordU(a.(*Key), b.(*Key))
+//@ spec kcmp(a *Key, b *Key) int = ordU(a, b)
 //@ spec keyOK(k *Key) bool = k != nil && k.SQLiteValue != nil && keyTyped(int(k.Type)) && imp(k.Type == v1proto.Type_REAL, !isnan(k.Real))
 
 //@ spec snapOf(c *Cursor) int = gf(c.cursor.Cursor, "snap")
@@ -664,7 +670,7 @@ package s3db
 //@   ensures desc-eof: imp(result == nil && !old(c.eof) && c.desc && c.eof, posOf(c) == -1 || posOf(c) >= seqN(snapOf(c)) || !aboveMin(c, kAt(snapOf(c), posOf(c)), old(c.gtMin)))
 //@   ensures fixed: snapOf(c) == old(snapOf(c)) && c.min == old(c.min) && c.max == old(c.max) && c.desc == old(c.desc)
 //@   loop 1 invariant cursorOK(c) && !c.eof && c.currentKey == old(c.currentKey) && c.currentRow == old(c.currentRow) && imp(c.gtMin, old(c.gtMin)) && imp(c.ltMax, old(c.ltMax)) && snapOf(c) == old(snapOf(c)) && !old(c.eof)
-//@   loop 1 invariant imp(!c.desc, old(posOf(c)) <= posOf(c)) && imp(c.desc, posOf(c) <= old(posOf(c)))
+//@   loop 1 invariant imp(!c.desc, old(posOf(c)) <= posOf(c) && c.ltMax == old(c.ltMax)) && imp(c.desc, posOf(c) <= old(posOf(c)) && c.gtMin == old(c.gtMin))
 //@   loop 1 invariant forall i int :: imp(!c.desc && old(posOf(c)) <= i && i < posOf(c), skipOKasc(c, snapOf(c), i, old(c.gtMin)))
 //@   loop 1 invariant forall i int :: imp(c.desc && posOf(c) < i && i <= old(posOf(c)), skipOKdesc(c, snapOf(c), i, old(c.ltMax)))
 //@   loop 1 decreases ite(c.desc, posOf(c) + 2, seqN(snapOf(c)) - posOf(c) + 1)
